@@ -379,9 +379,16 @@ def c10_monitor(ctx, tr, ix):
                     p = h[side]
                     n += 1
                     if p["qty"] < 0:
-                        ctx.witness("C10.1", {"kind": "negative_quantity", "account": t}, "%s at %s: %s %s quantity %s" % (kind, when, h["id"], side, p["qty"]), rp)
+                        sig = {"kind": "negative_quantity", "account": t}
+                        # finding F12: an ordinary CLOSE and a CLOSE_TODAY submitted through the generic submit_order rest together on one leg
+                        if t == "FUTURE" and any(c_["api"] == "plan_future_generic_close" and c_["args"][0] == h["id"] and c_["when"] <= when for c_ in tr.calls):
+                            sig["generic_close_and_close_today_resting"] = True
+                        ctx.witness("C10.1", sig, "%s at %s: %s %s quantity %s" % (kind, when, h["id"], side, p["qty"]), rp)
                     if t == "FUTURE" and (p["old"] < 0 or p["old"] > p["qty"]) and p["qty"] >= 0:
-                        ctx.witness("C10.3", {"kind": "old_quantity_out_of_range"}, "%s at %s: %s %s old %s qty %s" % (kind, when, h["id"], side, p["old"], p["qty"]), rp)
+                        sig3 = {"kind": "old_quantity_out_of_range"}
+                        if any(c_["api"] == "plan_future_generic_close" and c_["args"][0] == h["id"] and c_["when"] <= when for c_ in tr.calls):
+                            sig3.update(account="FUTURE", generic_close_and_close_today_resting=True)      # consequence of F12 (the leg went negative before)
+                        ctx.witness("C10.3", sig3, "%s at %s: %s %s old %s qty %s" % (kind, when, h["id"], side, p["old"], p["qty"]), rp)
     # rejected closes change nothing: position-validator vetoes vs snapshots around the call
     for c in tr.calls:
         if c["exc"] is None and not c["orders"] and c["api"] in ("order_shares", "order_lots", "sell_close", "buy_close") and c["before"] and c["after"]:
